@@ -171,6 +171,7 @@ def run(check, an: Analysis):
 
     # ---- P ------------------------------------------------------------------
     check_close_on_every_exit(check, an, 'P', receivers)
+    _scope.check_disable_interrupts(check, an, 'P')
     check.floor('P', 30)
     # ---- E ------------------------------------------------------------------
     for recv in receivers:
